@@ -24,7 +24,12 @@ var c06Strings = []string{
 	"2024-01-02T03:04:05Z", "9999-12-31T23:59:59Z", "yesterday", "text/html", "text/markdown", "image/png", "plain https://a.b/c text",
 }
 
+var c06Floats = []float64{0, -1, 1.5, 1e300, 18446744073709551616}
+
 func c06Float(name string) float64 {
+	if verifrt.Param("cannedfloats", 0) == 1 {
+		return c06Floats[verifrt.Choice(name+"-canned", len(c06Floats))]
+	}
 	f := verifrt.Float64(name)
 	verifrt.Assume(f == f)
 	verifrt.Assume(f-f == 0.0)
@@ -254,6 +259,29 @@ func VerifC06Types() {
 	}
 	o["type"] = t
 	built := c06BuildAndExercise(o, c06Args{w: 9, k: 1, parents: 1, harvest: 1})
+	verifrt.Observe("built", built)
+	verifrt.Reach("end")
+}
+
+// VerifC06AnyKey: minimal objects (so that every fallback for an absent key
+// runs) in which one key - any key the code reads, as discovered from the
+// current source - holds an arbitrary JSON value.
+func VerifC06AnyKey() {
+	keys := verifrt.Strings("object-keys")
+	verifrt.Assert(len(keys) > 0, "keys-discovered")
+	o := anyKeyBase(verifrt.Choice("base", len(anyKeyBases)))
+	key := keys[verifrt.Choice("key", len(keys))]
+	o[key] = c06Value("v", verifrt.Param("depth", 1))
+	var args c06Args
+	switch verifrt.Choice("mode", verifrt.Param("modes", 3)) {
+	case 0:
+		args = c06Args{w: 0, k: 1, parents: 2, harvest: 2}
+	case 1:
+		args = c06Args{w: 9, k: 2, parents: 1, harvest: 1}
+	default:
+		args = c06Args{w: -5, k: int(verifrt.Int64("k"))}
+	}
+	built := c06BuildAndExercise(object.Object(o), args)
 	verifrt.Observe("built", built)
 	verifrt.Reach("end")
 }
